@@ -28,8 +28,15 @@ HARNESSES = {
              "native": {"dom8": 4, "dom64": 8},
              "claim": "after try_batching every MsgAppend in the outbox is still a contiguous run of entries anchored at its own index (entries[k].index == msg.index + 1 + k)",
              "obligation": "C13.kext.try_batching.anchored_contiguous"}],
+    # leader completeness (C03) rests on matched indexes that are true, i.e. on acknowledgements of well-formed appends: same harness, native back end only
+    "C03": [{"template": "c13_batching.krs", "harness": "c13_try_batching", "unwind": 6, "kani": False,
+             "functions": ["raft::RaftCore::try_batching", "util::is_continuous_ents"],
+             "bound": "natively: an outbox of 2 messages (any type, receiver 1 or 2, anchored contiguous entries, 0..=3 each) and 0..=3 new contiguous entries, all indexes < 8 (the Kani run of this harness belongs to C13)",
+             "native": {"dom8": 4, "dom64": 8},
+             "claim": "after try_batching every MsgAppend in the outbox is still a contiguous run of entries anchored at its own index (entries[k].index == msg.index + 1 + k)",
+             "obligation": "C13.kext.try_batching.anchored_contiguous"}],
     # log matching between nodes (C05) rests on every MsgAppend being a contiguous run anchored at its own index: same harness
-    "C05": [{"template": "c13_batching.krs", "harness": "c13_try_batching", "unwind": 6,
+    "C05": [{"template": "c13_batching.krs", "harness": "c13_try_batching", "unwind": 6, "kani": False,
              "functions": ["raft::RaftCore::try_batching", "util::is_continuous_ents"],
              "bound": "an outbox of 2 messages (any type, receiver 1 or 2, anchored contiguous entries, 0..=2 each) and 0..=2 new contiguous entries starting at any index < 100 (Kani); natively: every such case with indexes < 8 and runs of 0..=3 entries",
              "native": {"dom8": 4, "dom64": 8},
@@ -149,6 +156,11 @@ def run(P, repo, build_dir, timeout=600, tier="quick"):
         if r["native"]["status"] == "fail":
             # a concrete failing input on the extracted real text: decisive, whatever Kani says
             r.update(status="fail", failed=[h["obligation"] + " (native exhaustive enumeration)"], output=r["native"]["input"], cmd=r["native"]["cmd"])
+            res.append(r)
+            continue
+        if h.get("kani") is False:
+            # this property relies on the native back end only (the symbolic run of the same harness is part of another property's check)
+            r.update(status=r["native"]["status"], reason=r["native"].get("reason", ""), wall_s=r["native"].get("wall_s"), cmd=r["native"].get("cmd"))
             res.append(r)
             continue
         cmd = ["kani", os.path.basename(path), "--harness", h["harness"]]
